@@ -7,6 +7,7 @@ package checks
 
 import (
 	"fmt"
+	"math"
 	"strings"
 
 	"verif/internal/dbgen"
@@ -331,6 +332,45 @@ INSERT INTO z SELECT i, i%%13, CASE i%%3 WHEN 0 THEN 'k'||(i%%5) WHEN 1 THEN 'K'
 			`CREATE TABLE ty (a ıNTEGER PRIMARY KEY, b unıque)`,
 			`INSERT INTO ty VALUES (9, 'nine'), (7, 'seven'), (7.5, 'real'), ('t', 'text')`,
 		}},
+		{"integer-widths", func() []string {
+			// every integer storage width (1, 2, 3, 4, 6, 8 bytes) at its boundaries, and every value with the top
+			// bit of one of its lower bytes set (sign extension of a part of the value), as values, as rowids and in an index
+			seen := map[int64]bool{}
+			var vals []int64
+			add := func(v int64) {
+				if !seen[v] {
+					seen[v] = true
+					vals = append(vals, v)
+				}
+			}
+			for e := uint(0); e < 63; e++ {
+				p := int64(1) << e
+				for _, v := range []int64{p, p - 1, p + 1, -p, -p - 1, -p + 1} {
+					add(v)
+				}
+				for k := uint(0); k*8+7 < e; k++ {
+					add(p | int64(0x80)<<(8*k))
+					add(-(p | int64(0x80)<<(8*k)))
+					add(p | int64(0xff)<<(8*k))
+				}
+			}
+			add(math.MaxInt64)
+			add(math.MinInt64)
+			st := []string{`CREATE TABLE iv (id INTEGER PRIMARY KEY, v, w INTEGER)`, `CREATE INDEX iv_v ON iv (v)`, `CREATE TABLE ir (id INTEGER PRIMARY KEY, n)`}
+			for i := 0; i < len(vals); i += 40 {
+				j := i + 40
+				if j > len(vals) {
+					j = len(vals)
+				}
+				var a, b []string
+				for k, v := range vals[i:j] {
+					a = append(a, fmt.Sprintf("(%d, %d, %d)", i+k+1, v, -v/3))
+					b = append(b, fmt.Sprintf("(%d, %d)", v, i+k))
+				}
+				st = append(st, "INSERT INTO iv VALUES "+strings.Join(a, ", "), "INSERT INTO ir VALUES "+strings.Join(b, ", "))
+			}
+			return st
+		}()},
 		{"alter-defaults", []string{
 			`CREATE TABLE t (id INTEGER PRIMARY KEY, v)`,
 			`INSERT INTO t VALUES (1, 'one'), (2, 'two')`,
